@@ -226,6 +226,8 @@ def covering_files(rng):
             yield '\n'.join(HEAD[:6] + sp + HEAD[6:] + ATOMS + TAIL) + '\n', kw
         else:
             yield '\n'.join(HEAD + ATOMS[:2] + sp + ATOMS[2:] + TAIL) + '\n', kw
+    # P-1: no SYMM instruction, NEUT follows LATT
+    yield '\n'.join(HEAD[:4] + ['NEUT'] + HEAD[5:] + ATOMS + TAIL) + '\n', 'NEUT'
     for symm in ('SYMM 0.5+X, -Y, 0.25-Z', 'SYMM -x+1/2,y+1/2,-z', 'SYMM Y-X, -X, Z+1/3', 'SYMM -Y, X-Y, 2/3+Z', 'SYMM 1/4-y, 3/4+x, 1/4+z'):
         yield '\n'.join(HEAD[:4] + [symm, 'SYMM -X, -Y, Z'] + HEAD[5:] + ATOMS + TAIL) + '\n', 'SYMM'
     # explicit scattering factors and many free variables
